@@ -155,6 +155,7 @@ func (w *reqResWriter) flushFragment(fragment *writableFragment) error {
 	case <-w.mex.errCh.c:
 		return w.failed(w.mex.errCh.err)
 	case w.conn.sendCh <- frame:
+		verifPoint("reqres.flushFragment.sent", w.mex.msgID)
 		return nil
 	}
 }
